@@ -54,6 +54,8 @@ type Options struct {
 	// DnsRaw: do not run the socketace layer on accepted DNS-tunnel connections; the check drives
 	// the tunnel connection objects directly (C07, C13).
 	DnsRaw bool
+	// DnsDomain overrides the tunnel domain of the DNS carrier (default world.DnsDomain)
+	DnsDomain string
 	// OnDial is called for every physical carrier connection with the connection objects whose
 	// read plans govern the client's and the server's reads respectively.
 	OnDial func(clientReads, serverReads *netsim.MemConn)
